@@ -528,7 +528,15 @@ fn was_modified(files: &[PathAndMetadata], after: DateTime<FixedOffset>, log: &d
         ..
     } in files.iter()
     {
-        match m.modified() {
+        // The metadata was read through links. A symbolic link created after grouping in place of
+        // a member has a new modification time of its own even if it points to an old file,
+        // so take the later of the two times.
+        let modified = m.modified().map(|target_time| {
+            fs::symlink_metadata(p.to_path_buf())
+                .and_then(|link| link.modified())
+                .map_or(target_time, |link_time| link_time.max(target_time))
+        });
+        match modified {
             Ok(file_timestamp) => {
                 let file_timestamp: DateTime<Local> = file_timestamp.into();
                 if file_timestamp > after {
